@@ -61,6 +61,7 @@ def consistent_assignments(spec, srcvals):
     out = []
     for bits in itertools.product((False, True), repeat=len(cbs)):
         val = dict(srcvals)
+        val['#T'], val['#F'] = True, False      # constant inputs
         val.update(zip(names, bits))
         for fname, feeder in fed.items():
             val[fname] = val[feeder]
@@ -115,7 +116,7 @@ def run_network(spec, walk, ctx, case):
     fed = {f['name']: f['feeder'] for f in spec['fed']}
 
     def check_consistent(circuit, where):
-        val = {}
+        val = {'#T': True, '#F': False}
         for b in circuit.getblocks():
             val[b.name] = b.output
         for c in spec['cblocks']:
@@ -163,7 +164,7 @@ def run_network(spec, walk, ctx, case):
                 blk = edzed.Or(c['name'], **kw)
             else:
                 blk = edzed.FuncBlock(c["name"], func=lambda x: bool(x), **kw)   # identity on booleans (UNDEF -> False)
-            blk.connect(*c['ins'])
+            blk.connect(*[{'#T': edzed.Const(True), '#F': False}.get(i, i) for i in c['ins']])
             created[c['name']] = blk
             orig = blk.eval_block
 
@@ -281,6 +282,14 @@ def random_network(rng):
     for f in fed:
         c = rng.choice(cbs)
         c['ins'][rng.randrange(len(c['ins']))] = f['name']
+    if rng.random() < 0.3:
+        # a block fed by constants only (Const object / plain constant) and a consumer of it:
+        # nothing ever "changes" there, still its output must agree with its inputs when idle
+        kind = rng.choice(['not', 'and', 'or', 'xor', 'ident'])
+        k = 1 if kind in ('not', 'ident') else rng.choice([1, 2, 3])
+        cbs.append({'name': 'konst', 'kind': kind, 'ins': [rng.choice(['#T', '#F']) for _ in range(k)]})
+        cbs.append({'name': 'kuser', 'kind': rng.choice(['xor', 'and', 'or']),
+                    'ins': ['konst', rng.choice(sources)]})
     return {'sources': sources, 'init': {s: rng.random() < 0.5 for s in sources},
             'fed': fed, 'cblocks': cbs}
 
